@@ -67,7 +67,7 @@ package upstream
 //@ func (u *udpWithFallback) ExchangeContext(ctx context.Context, q []byte) (r *dnsmsg.Msg, err error)
 //@   props C16
 //@   requires u != nil && u.u != nil && u.u.pool != nil && u.t != nil && ctx != nil && len(q) <= 65535
-//@   requires rtInv(u.t) && u.t.logger != nil -- the TCP transport's monitor invariant (holds between its critical sections)
+//@   requires rtInv(u.t) && u.t.logger != nil && u.t.ctx != nil && u.t.opts.DialContext != nil -- the TCP transport's monitor invariant (holds between its critical sections)
 // what an exchange returns on success is a decoded reply (it comes over a channel from the connection's reader)
 //@   assumecall ExchangeContext: ret1 == nil ==> ret0 != nil && fresh(ret0) && wfMsg(ret0)
 //@   assumecall ExchangeContext: ret1 != nil ==> ret0 == nil
